@@ -67,4 +67,10 @@ MUTANTS = [
     N("C11", "the mode word is cut to 32 bits", B,
       "    return BscFchmod(events, args[0], serialize_stat_flags(args[1]), serialize_result(events[-1]))",
       "    return BscFchmod(events, args[0], serialize_stat_flags(args[1] & 0xffffffff), serialize_result(events[-1]))"),
+    F("C11", "access mode of faccessat decoded from the flag word", B,
+      "    amode = serialize_access_flags(args[2])\n    return BscFaccessat(", "    amode = serialize_access_flags(args[3])\n    return BscFaccessat(", "R0"),
+    F("C11", "protections of a fault hidden for pid 0", MA,
+      "            if self.pid is not None and self.caller_prot is not None:", "            if self.pid and self.caller_prot is not None:", "R0"),
+    N("C11", "faccessat access mode through a named word", B,
+      "    amode = serialize_access_flags(args[2])\n    return BscFaccessat(", "    mode_word = args[2]\n    amode = serialize_access_flags(mode_word)\n    return BscFaccessat("),
 ]
